@@ -11,11 +11,11 @@ core.import_dfols()
 
 PROP = "C08"
 LEVEL = "fault_enumeration"
-KINDS = ["nan", "inf", "-inf", "big", "raise"]
+KINDS = ["nan", "inf", "-inf", "big", "raise", "raise-linalg", "raise-value", "raise-overflow"]
 RULE = ("Fault enumeration. A committed catalogue of 14 scenarios (plain, bounds, scaled, one and two projections, "
         "regression npt=2n+1, growing, soft restart, hard restart with and without old r_k, averaging x2, regulariser, growing + soft restart); "
         "for each a fault-free reference run gives nf and then EVERY evaluation index k=1..nf x EVERY fault kind "
-        "{NaN, +inf, -inf, 1e200, raised exception} is executed (all components faulty, plus 'every evaluation >= k' for k <= 3; thorough adds one-component variants "
+        "{NaN, +inf, -inf, 1e200, raised exception of a user-defined class, LinAlgError, ValueError, OverflowError (the classes dfols' own handlers catch)} is executed (all components faulty, plus 'every evaluation >= k' for k <= 3; thorough adds one-component variants "
         "and 'every evaluation >= k' for every k) - exhaustive inside the catalogue. In addition Hypothesis generates scenarios "
         "over the C02/C03 space (plus throw_error_on_nans) with a drawn (k, kind, component, sticky) fault. "
         "Non-trivial = the faulty evaluation is not the first evaluation of x0 (roles x0-resample/init/main/after-restart "
@@ -75,9 +75,9 @@ def enumerate_cases(tier):
         for k in range(1, nf + 1):
             for kind in KINDS:
                 out.append({"scen": scen, "name": name, "k": k, "kind": kind, "comp": "all", "sticky": False, "nf_ref": nf})
-                if tier == "thorough" and kind != "raise":
+                if tier == "thorough" and not kind.startswith("raise"):
                     out.append({"scen": scen, "name": name, "k": k, "kind": kind, "comp": 0, "sticky": False, "nf_ref": nf})
-                if kind != "raise" and (tier == "thorough" or k <= 3):
+                if not kind.startswith("raise") and (tier == "thorough" or k <= 3):
                     # 'at all of them': every evaluation from k on is bad (quick tier: from the very start only)
                     out.append({"scen": scen, "name": name, "k": k, "kind": kind, "comp": "all", "sticky": True, "nf_ref": nf})
     return out
@@ -132,7 +132,7 @@ def run(case):
     reached = len(o.calls) >= k
     if not reached:
         res.count("fault-not-reached")
-    if kind == "raise":
+    if kind.startswith("raise"):
         if reached:
             if o.exc is None or o.exc is not o.raised_inside:
                 res.fail("C08.propagates", "exception raised inside objfun at evaluation %d did not reach the caller unchanged (got %r)"
